@@ -10,7 +10,7 @@ EXTENDS Session, Json
 (* print behaviours that end with a Dump, or a failed Construct, i.e. complete shapes *)
 Complete == /\ Len(hist) > 0
             /\ \/ hist[Len(hist)].op = "Dump"
-               \/ (hist[Len(hist)].op = "Construct" /\ hist[Len(hist)].mode # "ok")
+               \/ (hist[Len(hist)].op = "Construct" /\ ~IsOk(hist[Len(hist)].mode))
 (* shapes: no repeated failed constructs; at most one Call before the Dump; keeps the space linear *)
 Shape == /\ Cardinality({i \in 1..Len(hist) : hist[i].op = "Call"}) <= 1
          /\ Cardinality({i \in 1..Len(hist) : hist[i].op = "Construct"}) <= 1
